@@ -55,6 +55,9 @@ REJECT = [
     'SELECT coalesce(a, b) FROM #t', 'SELECT coalesce() FROM #t', "SELECT coalesce('n/a', a) FROM #t", 'SELECT coalesce(1 + 1, a, d) FROM #t', 'SELECT a FROM #t WHERE coalesce(TRUE, b)',
     "SELECT coalesce(2024-01-01, b) FROM #t", 'SELECT coalesce(NULL, a, b) FROM #t', 'SELECT b, sum(a) FROM #t GROUP BY b HAVING count(*) > a', 'SELECT b, sum(a) FROM #t GROUP BY b HAVING sum(a) > length(b)', 'SELECT a FROM #t WHERE a IN (SELECT a, b FROM #t)', 'SELECT 1 IN 2 FROM #t', 'SELECT a IN b FROM #t', 'SELECT a NOT IN 3 FROM #t',
     'SELECT a, sum(c) FROM #t GROUP BY o', 'SELECT a FROM #t WHERE a > %s AND b = %(x)s',
+    # overloads are selected by the exact operand types: a bool is not an int for BETWEEN; only list / set / dict typed (or untyped) values are searched by IN
+    'SELECT TRUE BETWEEN 0 AND 2 FROM #t', 'SELECT a BETWEEN FALSE AND 2 FROM #t', 'SELECT (a > 1) BETWEEN 0 AND 1 FROM #t', 'SELECT a BETWEEN 0 AND TRUE FROM #t',
+    "SELECT 'x' IN b FROM #t", "SELECT b NOT IN 'abc' FROM #t", "SELECT a IN 'abc' FROM #t", 'SELECT a IN d FROM #t',
     # syntax
     'SELECT', 'SELECT a FROM', 'SELECT a FROM #t WHERE', 'SELEC a', 'SELECT a,, b FROM #t', 'SELECT (a FROM #t', 'SELECT a FROM #t ORDER', 'SELECT a FROM #t LIMIT x',
     'SELECT a FROM #t GROUP', "SELECT 'abc FROM #t", 'SELECT 1 < 2 < 3', '', ';', 'SELECT 2024-02-30', 'SELECT 2024-13-01', 'SELECT 0000-01-01',
@@ -63,11 +66,15 @@ REJECT = [
 LEDGER_ACCEPT = ['SELECT date, account FROM #postings', 'SELECT account, sum(position) GROUP BY account', 'BALANCES', 'JOURNAL', 'PRINT',
                  'SELECT date FROM year = 2020', 'SELECT date FROM OPEN ON 2020-01-01 CLOSE ON 2020-03-01 CLEAR', 'SELECT date FROM OPEN ON 2020-01-01 CLOSE',
                  'SELECT date FROM CLOSE', 'BALANCES FROM OPEN ON 2020-01-01 CLOSE', 'PRINT FROM OPEN ON 2020-02-01 CLOSE', 'JOURNAL "Assets" FROM CLOSE ON 2020-02-01',
-                 'SELECT meta("ref"), entry_meta("ref"), any_meta("memo")', 'SELECT position.units.number, entry.flag']
+                 'SELECT meta("ref"), entry_meta("ref"), any_meta("memo")', 'SELECT position.units.number, entry.flag',
+                 # attribute access on every structured column type, aliased (position, amount, entry) or declared directly (#accounts.open / close)
+                 'SELECT open.date, close.date FROM #accounts', 'SELECT account FROM #accounts WHERE close.date > 2021-01-01', 'SELECT open.meta FROM #accounts',
+                 'SELECT weight.currency, price.number, cost(position).number', 'SELECT amount.number FROM #prices', 'SELECT entry.date, entry.meta']
 LEDGER_REJECT = ['SELECT tags, count(1) GROUP BY 1', 'SELECT tags, count(1) GROUP BY tags', 'SELECT account, links, count(1) GROUP BY account, 2', 'SELECT meta, count(1) GROUP BY 1',
                  'SELECT sum(number), count(1) GROUP BY 1', "SELECT meta['ref'] * position", "SELECT account WHERE tags > entry_meta('ref')", "SELECT meta['ref'] + tags", "SELECT position - any_meta('x')", "SELECT entry_meta('k') = meta", "SELECT balance + meta['x']",
                  'SELECT date FROM OPEN ON 2020-03-01 CLOSE ON 2020-01-01', 'SELECT date FROM sum(number) > 1', 'SELECT position.nosuch', 'SELECT account.x', 'SELECT date FROM nosuchcol = 1',
-                 'BALANCES AT nosuchfn', 'PRINT FROM nosuch = 1', 'SELECT date["k"]']
+                 'BALANCES AT nosuchfn', 'PRINT FROM nosuch = 1', 'SELECT date["k"]',
+                 "SELECT 'a' IN account", 'SELECT number IN position', 'SELECT currency IN weight', 'SELECT open.nosuch FROM #accounts', 'SELECT flag BETWEEN 0 AND 1']
 
 
 def classify(c, q, params=None):
